@@ -360,6 +360,8 @@ impl Index {
         let mut fai_reader = csv::ReaderBuilder::new()
             .delimiter(b'\t')
             .has_headers(false)
+            // .fai files are plain tab-separated text: a '"' is part of the sequence name
+            .quoting(false)
             .from_reader(fai);
         for (rid, row) in fai_reader.deserialize().enumerate() {
             let record: IndexRecord = row?;
